@@ -19,6 +19,15 @@ def gen(rng):
     return g
 
 
+def f23_region(p):
+    for r in p.rules:
+        if r.options.expand1:
+            kept = [s for s in r.expansion if not (s.is_term and s.filter_out)]
+            if len(kept) == 1 and (not kept[0].is_term) and kept[0].name.startswith('_'):
+                return True
+    return False
+
+
 def supported(p):
     for r in p.rules:
         kept = [s for s in r.expansion if not (s.is_term and s.filter_out) and s != r.origin]
@@ -69,8 +78,19 @@ def _case(args):
             recs.append({'parser': parser, 'skip': 'no_build'}); continue
         if not supported(p):
             recs.append({'parser': parser, 'skip': 'outside_supported_class'}); continue
+        if f23_region(p):
+            recs.append({'parser': parser, 'skip': 'region_of_F23'}); continue
         if lalrlib.has_derivation_cycle([(r.origin.name, tuple((s.is_term, s.name) for s in r.expansion)) for r in p.rules]):
             recs.append({'parser': parser, 'skip': 'cyclic'}); continue
+        # "an unambiguous grammar": decided by a sufficient condition — the grammar is LALR(1) without any shift/reduce or reduce/reduce conflict
+        try:
+            with guarded(8):
+                ex = lalrlib.export(g)
+            conflict_free = ex['error'] is None and not any(len(c) > 1 or any(sh[0] == la for sh in row['shifts']) for row in ex['rows'] for la, c in row['las'])
+        except Exception:
+            conflict_free = False
+        if not conflict_free:
+            recs.append({'parser': parser, 'skip': 'not_provably_unambiguous'}); continue
         with guarded(8):
             rec = Reconstructor(p)
         for _ in range(3):
@@ -120,6 +140,17 @@ def run(ctx, res):
                 ok = False
             if not ok:
                 res.known_hits.append(('F7', '%s: %r, reconstruct(parse(%r)) == %r does not re-parse to the same tree' % (f['what'], w['grammar'], w['text'], out)))
+        if f['id'] == 'F23' and f['status'] == 'open':
+            from lark import Lark
+            from lark.reconstruct import Reconstructor
+            w = f['witness']
+            p = Lark(w['grammar'], parser='lalr', maybe_placeholders=False)
+            try:
+                ok = p.parse(Reconstructor(p).reconstruct(p.parse(w['text']))) == p.parse(w['text'])
+            except Exception:
+                ok = False
+            if not ok:
+                res.known_hits.append(('F23', '%s: %r on the tree of %r' % (f['what'], w['grammar'], w['text'])))
         if f['id'] == 'F21' and f['status'] == 'open':
             from lark import Lark
             from lark.reconstruct import Reconstructor
@@ -131,7 +162,7 @@ def run(ctx, res):
                 ok = False
             if not ok:
                 res.known_hits.append(('F21', '%s: %r on the tree of %r' % (f['what'], w['grammar'], w['text'])))
-    N = tier_scale(ctx['tier'], 1500, 20000) * (3 if ctx['deepen'] else 1)
+    N = tier_scale(ctx['tier'], 2500, 30000) * (3 if ctx['deepen'] else 1)
     jobs = [(gen(rng), rng.randrange(1 << 30)) for _ in range(N)]
     outs = pmap(_case, jobs, chunksize=4)
     cases, meta = [], []
